@@ -85,6 +85,10 @@ def contracts():
             # after post_template_fn
             "assert isinstance(t, str)": ["logged('post_template_fn') <= 1", "logged('add_newline_to_expansion') == 1",
                                           "implies(post_template_fn is None, logged('post_template_fn') == 0)",
+                                          # a non-None result of the post hook IS the expansion (also the empty string)
+                                          "implies(logged('post_template_fn') == 1 and "
+                                          "not is_none(call_result('post_template_fn', 0)), "
+                                          "same_object(t, call_result('post_template_fn', 0)))",
                                           "implies(logged('post_template_fn') == 1, "
                                           "same_object(call_arg('post_template_fn', 0, 1), ht))"],
         }))
